@@ -769,3 +769,210 @@ Lemma auto_neg32_refuted :
   show_args [] [sp] (payload (run 0 inp false [sp])) = [40; 45; 49; 41] /\
   ok_args [(sp, AInt 0xffffffff)] (show_args [] [sp] (payload (run 0 inp false [sp]))) = false.
 Proof. vm_compute. split; reflexivity. Qed.
+
+(* ------------------------------------------------------------------ what replay shows for one value *)
+Lemma firstn_le_bytes : forall k n v, (k <= n)%nat -> firstn k (le_bytes n v) = le_bytes k v.
+Proof.
+  induction k; intros n v H; [reflexivity|].
+  destruct n; [lia|]. cbn [le_bytes firstn]. f_equal. apply IHk. lia.
+Qed.
+
+(* the value get_argspec_string reads back from the bytes stored for an integer-class spec *)
+Lemma read_back_int : forall size w later,
+  size = 1 \/ size = 2 \/ size = 4 \/ size = 8 ->
+  of_le (takeN size (takeN (ALIGN size 4) (le_bytes 8 w) ++ later)) = w mod 2 ^ (8 * size).
+Proof.
+  intros size w later Hs.
+  assert (E : takeN size (takeN (ALIGN size 4) (le_bytes 8 w) ++ later) = le_bytes (N.to_nat size) w).
+  { rewrite takeN_app_le.
+    - rewrite takeN_takeN by (unfold ALIGN; lia). unfold takeN. apply firstn_le_bytes. lia.
+    - unfold takeN, lenN. rewrite firstn_length, length_le_bytes. unfold ALIGN. lia. }
+  rewrite E, of_le_le_bytes. rewrite N2Nat.id.
+  destruct Hs as [-> | [-> | [-> | ->]]]; reflexivity.
+Qed.
+
+Definition int_fmt (f : fmt) : Prop := f = FAuto \/ f = FSint \/ f = FUint \/ f = FHex \/ f = FOct.
+(* the class in which the automatic format misfires (auto_neg32_refuted) *)
+Definition neg32_class (s : spec) (w : N) : Prop :=
+  s_fmt s = FAuto /\ s_size s = 8 /\ 0xffff0000 < w mod 2 ^ 64 <= 0xffffffff.
+
+(* C09 integers: what replay prints for an integer spec is one of the accepted renderings of the low
+   bytes of the word that was passed - signed or unsigned decimal, hex or octal of exactly that value *)
+Theorem int_shown : forall syms s w later,
+  int_fmt (s_fmt s) ->
+  s_size s = 1 \/ s_size s = 2 \/ s_size s = 4 \/ s_size s = 8 ->
+  ~ neg32_class s w ->
+  let data := takeN (ALIGN (s_size s) 4) (le_bytes 8 w) ++ later in
+  In (fst (show_one syms s data)) (accept s (AInt w)) /\ snd (show_one syms s data) = ALIGN (s_size s) 4.
+Proof.
+  intros syms s w later Hf Hs Hn. cbv zeta.
+  destruct s as [idx f size ty u rs nm]. cbn [s_fmt s_size] in *.
+  unfold neg32_class in Hn. cbn [s_fmt s_size] in Hn.
+  unfold show_one, accept. cbn [s_fmt s_size].
+  rewrite (read_back_int size w later Hs).
+  set (v := w mod 2 ^ (8 * size)).
+  assert (Hv : v < 2 ^ (8 * size)) by (apply N.mod_lt; apply N.pow_nonzero; lia).
+  assert (Hv64 : v mod 2 ^ 64 = v).
+  { apply N.mod_small. eapply N.lt_le_trans; [exact Hv|].
+    apply N.pow_le_mono_r; lia. }
+  rewrite Hv64.
+  assert (HB : (if size =? 8 then 64 else lm_bits (ffs_idx size)) = 8 * size)
+    by (destruct Hs as [-> | [-> | [-> | ->]]]; reflexivity).
+  rewrite HB.
+  assert (Hvm : v mod 2 ^ (8 * size) = v) by (apply N.mod_small; exact Hv).
+  destruct Hf as [->|[-> | [-> | [-> | ->]]]].
+  - (* FAuto *)
+    destruct (if v <? 2 ^ 63 then 100000 <? v else v <? 2 ^ 64 - 100000) eqn:Ebig.
+    + destruct ((4294901760 <? v) && (v <=? 4294967295)) eqn:Er.
+      * (* shown as a 32-bit signed number: only sizes 4 and 8 can get here, 8 is the refuted class *)
+        destruct Hs as [-> | [-> | [-> | ->]]].
+        { exfalso. change (2 ^ (8 * 1)) with 256 in Hv. lia. }
+        { exfalso. change (2 ^ (8 * 2)) with 65536 in Hv. lia. }
+        { split; [|reflexivity]. left. unfold printf_int. cbn [fst]. change (8 * 4) with 32 in *. rewrite Hvm. reflexivity. }
+        { exfalso. apply Hn. split; [reflexivity|]. split; [reflexivity|].
+          fold v. change (8 * 8) with 64 in *. lia. }
+      * split; [|reflexivity]. right. right. left.
+        unfold printf_int. rewrite Hvm.
+        destruct (v =? 0) eqn:E0; [|reflexivity].
+        exfalso. apply N.eqb_eq in E0. rewrite E0 in Ebig. vm_compute in Ebig. discriminate.
+    + split; [|reflexivity]. left. unfold printf_int. rewrite Hvm. reflexivity.
+  - (* FSint *) split; [|reflexivity]. left. unfold printf_int. rewrite Hvm. reflexivity.
+  - (* FUint *)
+    split; [|reflexivity].
+    destruct (100000 <? v) eqn:E1.
+    + right. right. left. unfold printf_int. rewrite Hvm.
+      destruct (v =? 0) eqn:E0; [lia|reflexivity].
+    + right. left. unfold printf_int. rewrite Hvm. reflexivity.
+  - (* FHex *) split; [|reflexivity]. right. right. left. unfold printf_int. rewrite Hvm. reflexivity.
+  - (* FOct *) split; [|reflexivity]. right. right. right. left. unfold printf_int. rewrite Hvm. reflexivity.
+Qed.
+
+(* C09 characters: `/c` (sizes 1, 2, 4; size 8 is c64_refuted) *)
+Theorem char_shown : forall syms s w later,
+  s_fmt s = FChar -> s_size s = 1 \/ s_size s = 2 \/ s_size s = 4 ->
+  let data := takeN (ALIGN (s_size s) 4) (le_bytes 8 w) ++ later in
+  In (fst (show_one syms s data)) (accept s (AInt w)) /\ snd (show_one syms s data) = ALIGN (s_size s) 4.
+Proof.
+  intros syms s w later Hf Hs. cbv zeta.
+  destruct s as [idx f size ty u rs nm]. cbn [s_fmt s_size] in *. subst f.
+  unfold show_one, accept. cbn [s_fmt s_size fst snd].
+  assert (HA : ALIGN size 4 = 4) by (destruct Hs as [-> | [-> | ->]]; reflexivity).
+  rewrite HA. split; [|reflexivity]. left.
+  assert (Hn : nthN (takeN 4 (le_bytes 8 w) ++ later) 0 = w mod 256) by reflexivity.
+  rewrite Hn. reflexivity.
+Qed.
+
+(* a NUL-free byte string *)
+Lemma cstr_nz : forall b, nz b -> cstr b = b.
+Proof.
+  induction b as [|c r IH]; intro H; [reflexivity|].
+  inversion H; subst. cbn [cstr]. destruct (c =? 0) eqn:E; [lia|]. f_equal. apply IH. assumption.
+Qed.
+
+Lemma show_str_cases : forall b, nz b -> show_str b = b \/ show_str b = flat_map escaped_char b.
+Proof.
+  intros b H. unfold show_str. rewrite cstr_nz by exact H.
+  destruct (after_high b); [right|left]; reflexivity.
+Qed.
+
+(* the bytes one string occupies: 2-byte length, the characters, (NUL), padding *)
+Lemma string_chunk : forall fill body tl ahead,
+  exists rest, fit (ALIGN (lenN body + 2) 4) fill (over (le_bytes 2 (lenN body) ++ body ++ tl) ahead)
+               = le_bytes 2 (lenN body) ++ body ++ rest.
+Proof.
+  intros fill body tl ahead.
+  unfold over. rewrite <- !app_assoc.
+  set (junk := tl ++ skipn (length (le_bytes 2 (lenN body) ++ body ++ tl)) ahead).
+  unfold fit. rewrite <- !app_assoc.
+  set (A := ALIGN (lenN body + 2) 4).
+  assert (HA : lenN body + 2 <= A) by (unfold A; pose proof (ALIGN4_ge (lenN body + 2)); lia).
+  rewrite app_assoc.
+  assert (HL : lenN (le_bytes 2 (lenN body) ++ body) = lenN body + 2) by (rewrite lenN_app, lenN_le_bytes; lia).
+  unfold takeN. rewrite firstn_app.
+  rewrite firstn_all2 by (unfold lenN in *; lia).
+  rewrite <- app_assoc. eexists. reflexivity.
+Qed.
+
+(* C09 strings: what replay prints for the bytes of a stored string *)
+Theorem str_shown : forall syms s fill body tl ahead later,
+  s_fmt s = FStr -> nz body -> lenN body < 65536 ->
+  ~ (body = [255; 255; 255; 255]) ->
+  let data := fit (ALIGN (lenN body + 2) 4) fill (over (le_bytes 2 (lenN body) ++ body ++ tl) ahead) ++ later in
+  (fst (show_one syms s data) = quote ++ body ++ quote \/
+   fst (show_one syms s data) = quote ++ flat_map escaped_char body ++ quote) /\
+  snd (show_one syms s data) = ALIGN (lenN body + 2) 4.
+Proof.
+  intros syms s fill body tl ahead later Hf Hnz Hlen Hff. cbv zeta.
+  destruct (string_chunk fill body tl ahead) as (rest & ->).
+  unfold show_one. rewrite Hf.
+  rewrite <- !app_assoc.
+  assert (H2 : takeN 2 (le_bytes 2 (lenN body) ++ body ++ rest ++ later) = le_bytes 2 (lenN body))
+    by (apply takeN_app_exact; reflexivity).
+  rewrite H2, of_le_le_bytes. change (256 ^ N.of_nat 2) with 65536. rewrite N.mod_small by exact Hlen.
+  assert (H3 : dropN 2 (le_bytes 2 (lenN body) ++ body ++ rest ++ later) = body ++ rest ++ later)
+    by (apply dropN_app_exact; reflexivity).
+  rewrite H3. rewrite takeN_app_exact by reflexivity.
+  cbn [fst snd]. split; [|reflexivity].
+  assert (Hne : ((lenN body =? 4) && list_eqb body [255; 255; 255; 255]) = false).
+  { destruct (lenN body =? 4) eqn:E4; [|reflexivity]. cbn [andb].
+    destruct body as [|a [|b [|c [|d [|e r]]]]];
+      try (exfalso; unfold lenN in E4; simpl length in E4; lia).
+    cbn [list_eqb].
+    destruct (a =? 255) eqn:Ea; [|reflexivity].
+    destruct (b =? 255) eqn:Eb; [|reflexivity].
+    destruct (c =? 255) eqn:Ec; [|reflexivity].
+    destruct (d =? 255) eqn:Ed; [|reflexivity].
+    exfalso. apply Hff. f_equal; [lia|]. f_equal; [lia|]. f_equal; [lia|]. f_equal; lia. }
+  rewrite Hne, !app_nil_r.
+  destruct (show_str_cases body Hnz) as [-> | ->]; [left|right]; reflexivity.
+Qed.
+
+(* ------------------------------------------------------------------ one argument, from the registers to the text *)
+Definition is_arg (s : spec) : Prop := (s_idx s =? 0) = false.
+
+Lemma step_int : forall fill inp st s,
+  m_stop st = false -> is_arg s -> is_strfmt (s_fmt s) = false -> no_struct s ->
+  step fill inp false st s =
+  emit fill st (get_arg inp s (m_val st)) (takeN (ALIGN (s_size s) 4) (get_arg inp s (m_val st))) (ALIGN (s_size s) 4).
+Proof.
+  intros fill inp st s Hst Ha Hstr Hns. unfold step. rewrite Hst. unfold is_arg in Ha. rewrite Ha.
+  unfold no_struct in Hns. rewrite Hns, Hstr. cbn [Bool.eqb negb andb]. reflexivity.
+Qed.
+
+(* an integer or character argument, anywhere in a call: the bytes appended are the low bytes of the
+   word the ABI assigns, and replay shows them as that value *)
+Theorem int_arg_roundtrip : forall syms fill inp st s w,
+  m_stop st = false -> is_arg s -> lenN (m_val st) = VAL_SIZE ->
+  arg_word inp s = Some w ->
+  (int_fmt (s_fmt s) /\ (s_size s = 1 \/ s_size s = 2 \/ s_size s = 4 \/ s_size s = 8) /\ ~ neg32_class s w) \/
+  (s_fmt s = FChar /\ (s_size s = 1 \/ s_size s = 2 \/ s_size s = 4)) ->
+  exists chunk,
+    m_done (step fill inp false st s) = m_done st ++ chunk /\
+    lenN chunk = ALIGN (s_size s) 4 /\
+    m_total (step fill inp false st s) = m_total st + lenN chunk /\
+    forall later, In (fst (show_one syms s (chunk ++ later))) (accept s (AInt w)) /\
+                  snd (show_one syms s (chunk ++ later)) = lenN chunk.
+Proof.
+  intros syms fill inp st s w Hst Ha Hval Hw Hk.
+  assert (Hsz : s_size s = 1 \/ s_size s = 2 \/ s_size s = 4 \/ s_size s = 8) by tauto.
+  assert (Hstr : is_strfmt (s_fmt s) = false).
+  { destruct Hk as [([-> | [-> | [-> | [-> | ->]]]] & _) | (-> & _)]; reflexivity. }
+  assert (Hns : no_struct s).
+  { unfold no_struct. destruct Hk as [([-> | [-> | [-> | [-> | ->]]]] & _) | (-> & _)]; reflexivity. }
+  rewrite step_int by assumption.
+  rewrite emit_done, emit_total.
+  rewrite (fetch_word inp s (m_val st) w Hw Hval Hsz).
+  set (A := ALIGN (s_size s) 4).
+  set (c := takeN A (le_bytes 8 w)).
+  assert (Hc : lenN c = A).
+  { unfold c, takeN, lenN. rewrite firstn_length, length_le_bytes. unfold A, ALIGN. lia. }
+  assert (Hfit : fit A fill (over c (m_ahead st)) = c).
+  { unfold fit, over. rewrite <- app_assoc. apply takeN_app_exact. symmetry. exact Hc. }
+  rewrite Hfit. exists c. repeat split; try assumption; try (rewrite Hc; reflexivity).
+  - destruct Hk as [(Hf & Hs & Hn) | (Hf & Hs)].
+    + apply (int_shown syms s w later Hf Hs Hn).
+    + apply (char_shown syms s w later Hf Hs).
+  - rewrite Hc. destruct Hk as [(Hf & Hs & Hn) | (Hf & Hs)].
+    + apply (int_shown syms s w later Hf Hs Hn).
+    + apply (char_shown syms s w later Hf Hs).
+Qed.
